@@ -81,6 +81,7 @@ def run(ctx):
     if not X.dev("noreplay"):
         g = ctx.dump_graph("XdsAuthorityMC", ctx.pick("XdsAuthorityGen.cfg", "XdsAuthorityGenBig.cfg"))
         behs = X.clean(ctx.edge_cover(g, step_of, limit=ctx.pick(1500, 15000)))
+        ctx.log("behaviours: %d" % len(behs))
         tpath = X.replay(ctx, binary, behs, "replay", dump=True)
         validate(ctx, tpath, "replay of TLC behaviours")
     tpath2 = X.random_runs(ctx, binary, "auth", ctx.pick(250, 4000), "random", dump=True)
